@@ -154,7 +154,8 @@ CLAIMED = {
     'C18': dict(
         text='Partial. For the hand model of _polyline.py (_group_vertices / _build_polyline / _connect_seg_to_poly with exact end-point '
              'matching; run against Polyline2D.join_segments vertex for vertex on integer soups) it is proved for every input list, any '
-             'order and orientation, that each input segment is used exactly once as an undirected edge of the returned chains. Total '
+             'order and orientation, that each input segment is used exactly once as an undirected edge of the returned chains and that the '
+             'result is maximal (no edge of a later chain, and no unused segment while a chain grows, touches an end of an earlier chain). Total '
              'length, maximality (as many results as chains were cut, with jitter below tol/4) in 2D and 3D, and that '
              'joined_intersected_boundary / join_coplanar_faces of lattice tilings (voids, T-junctions) enclose exactly the union of '
              'the tiles (unit-cell sets) are searched.',
